@@ -40,6 +40,7 @@ REQUIRED = [
     'EdbVerif.C06.C06_mult_counterexample_for_filter_distinct_union',
     'EdbVerif.C06.C06_mult_counterexample_union_of_disjoint_flagged',
     'EdbVerif.C06.C06_mult_counterexample_nested_for_flag_leak',
+    'EdbVerif.C06.C06_mult_counterexample_union_type_operand',
 ]
 
 CARDS = ['AT_MOST_ONE', 'ONE', 'MANY', 'AT_LEAST_ONE']
@@ -394,6 +395,7 @@ def level2(ctx, witnesses, load_case, case_json, lines, expect):
 
     def toy_text(toy, text):
         try:
+            text = L2.toy_text(text, toy.sch)       # inheritance is desugared for the toy model
             return [toy.canon(v) for v in T.toplevel_query(T.parse(text), toy.db)]
         except Exception:             # constructs the toy model does not cover (LIMIT {}, min({}), casts)
             return None
@@ -478,6 +480,32 @@ def level2(ctx, witnesses, load_case, case_json, lines, expect):
                          what + ' (real compiler on EdgeQL text; reference: toy_eval_model)',
                          {'edgeql': q, 'sdl': L2.sdl_of(csch), 'compiler': real, 'result': vals,
                           'case': case_json(csch, L2.COMBO_DB, t), 'level': 2})
+
+    # -- UNION of object types under inheritance
+    hsch = dict(L2.HIER_SCHEMA, fns=[dict(f) for f in M.STD_FNS])
+    hrs = schema(L2.sdl_of(hsch))
+    htoy = M.Toy(hsch, L2.HIER_DB)
+    out['union_pairs'] = 0
+    for c in L2.union_pairs():
+        q, t = c['text'], c['term']
+        out['union_pairs'] += 1
+        real = compile_(hrs, q)
+        vals = toy_text(htoy, q) if ' ' in real else None
+        sl, tl = M.schema_line(hsch), M.term_line(t)
+        lines.append(f'infer {sl}|{tl}')
+        expect.append(('infer2', real, (q, hsch, L2.HIER_DB, t)))
+        lines.append(f'eval {sl}|{M.db_line(L2.HIER_DB)}|{tl}')
+        expect.append(('eval2', None if vals is None else (' '.join(vals) or '-'), (q, hsch, L2.HIER_DB, t)))
+        if vals is not None:
+            out['oracle_checks'] += 1
+            for kind, what in oracle_term(real + ' 0', vals):
+                out['oracle_failures'] += 1
+                key = (finding_key(kind, 'union-with-union-type-operand-taken-as-disjoint') if c['nested']
+                       else f"oracle2:{kind}:pair:{c['name']}")
+                ctx.fail(key, what + ' (real compiler on EdgeQL text; reference: toy_eval_model with the '
+                         'supertype expanded into the union of its exact subtypes)',
+                         {'edgeql': q, 'toy_text': L2.toy_text(q, hsch), 'sdl': L2.sdl_of(hsch), 'compiler': real,
+                          'result': vals, 'case': case_json(hsch, L2.HIER_DB, t), 'level': 2})
 
     # -- random well-typed queries
     rng = ctx.rng
@@ -603,7 +631,9 @@ def run(ctx: core.Ctx):
 
     def load_case(c):
         sch = c['schema']
-        sch = {'ntypes': sch['ntypes'], 'ptrs': sch['ptrs'], 'fns': [dict(f) for f in M.STD_FNS]}
+        sch = {'ntypes': sch['ntypes'], 'ptrs': sch['ptrs'], 'fns': [dict(f) for f in M.STD_FNS],
+               'children': {int(k): v for k, v in sch.get('children', {}).items()},
+               'descs': {int(k): v for k, v in sch.get('descs', {}).items()}}
         db = None
         if c.get('db') is not None:
             db = {'objs': [tuple(o) for o in c['db']['objs']],
@@ -627,6 +657,10 @@ def run(ctx: core.Ctx):
         for c in L2.stmt_combos():
             if c['pos'] != 'shape':
                 cases.append(('combo:' + c['name'], combo_sch, L2.COMBO_DB, c['term']))
+        # UNION of object types under inheritance (chain of depth 3, diamond, unrelated)
+        hier_sch = dict(L2.HIER_SCHEMA, fns=[dict(f) for f in M.STD_FNS])
+        for c in L2.union_pairs():
+            cases.append((('pair3:' if c['nested'] else 'pair:') + c['name'], hier_sch, L2.HIER_DB, c['term']))
         n_fixed = len(cases)
         rng = ctx.rng
         n_terms = ctx.budget(1500, 40000)
@@ -645,7 +679,9 @@ def run(ctx: core.Ctx):
                 cases.append(('rand', sch, db, t))
 
     def case_json(sch, db, t):
-        return {'schema': {'ntypes': sch['ntypes'], 'ptrs': sch['ptrs']},
+        return {'schema': {'ntypes': sch['ntypes'], 'ptrs': sch['ptrs'],
+                           'children': {str(k): v for k, v in sch.get('children', {}).items()},
+                           'descs': {str(k): v for k, v in sch.get('descs', {}).items()}},
                 'db': None if db is None else {'objs': db['objs'],
                                                'ptrs': {f'{p}:{i}': v for (p, i), v in db['ptrs'].items()}},
                 'term': t}
@@ -798,7 +834,10 @@ def run(ctx: core.Ctx):
                 w = next(x for x in witnesses if 'witness:' + x['name'] == stream)
                 cls = w.get('class', cls)
             key = finding_key(kind, cls) if cls else f'oracle:{kind}:unclassified:{M.term_line(case[2])}'
-            if not cls and stream.startswith('combo:'):
+            if not cls and stream.startswith('pair3:'):
+                cls = 'union-with-union-type-operand-taken-as-disjoint'
+                key = finding_key(kind, cls)
+            if not cls and (stream.startswith('combo:') or stream.startswith('pair:')):
                 key = f'oracle:{kind}:{stream}'
             viol_classes[key] = viol_classes.get(key, 0) + 1
             r2 = real_infer(case[0], case[2])
